@@ -230,13 +230,17 @@ ChooseBareHttp ==
        \/ /\ scn.hd.end.code = 1 /\ scn.hd.end.msg = "ascii" /\ scn.hd.end.details = 0 /\ scn.hd.end.how = "normal"
           \* (style "jsoncode": the bare failure carries a JSON body of the backend's own making that begins with a
           \*  numeric "code" but is not the protocol's error object)
+          \* (zc: the failure page of an enveloped backend - or of the proxy in front of it - is gzip-compressed
+          \*  and says so with Content-Encoding; that header describes the page, not the error the client is sent)
           /\ \E st \in HttpStatuses, sty \in (IF Enveloped(Srv.form) THEN {"declared"} ELSE {"declared", "jsoncode"}),
+                zc \in (IF Enveloped(Srv.form) THEN BOOLEAN ELSE {FALSE}),
                 \* (nopass: client and backend speak the same protocol and codec, but the service accepts no compression
                 \*  and the client compresses - the route converts, it is not a pass-through)
                 nopass \in (IF Srv.proto = ProtoOf(scn.cl.form) /\ Srv.codec = ClientCodec(scn.cl) /\ scn.cl.comp = "" /\ Len(scn.cl.frames) = 1
                             THEN BOOLEAN ELSE {FALSE}) :
                scn' = [scn EXCEPT !.hd.end = [DefaultEnd EXCEPT !.how = "barehttp", !.code = 0, !.style = sty], !.hd.status = st,
                                   !.hd.frames = <<>>, !.hd.errat = 0,
+                                  !.hd.comp = IF zc THEN "gzip" ELSE "",
                                   !.cfg.comps = IF nopass THEN <<>> ELSE @,
                                   !.cl.comp = IF nopass THEN "gzip" ELSE @,
                                   !.cl.accept = IF nopass THEN <<"gzip">> ELSE @,
